@@ -94,24 +94,29 @@ impl ActionKey {
     #[verifier::external_body]
     pub fn clone(&self) -> (r: Self) ensures r.id() == self.id() { unimplemented!() }
 }
+// which async sender function an action's future is built from (R8 keeps this marker)
+pub enum Via { SendKeyedEvent, ProcessEvent, Inline, Other }
 impl Action {
     pub uninterp spec fn key_id(&self) -> Option<int>;   // Some(id) for keyed actions
+    // the event is delivered through `send_keyed_event`, whose handler closure re-checks the key when the
+    // model starts processing the message (ASSUMED from its 4-line body: `if !event_key.is_cancelled() { call }`)
+    pub uninterp spec fn model_rechecks_key(&self) -> bool;
 }
 #[verifier::external_body]
-fn mk_OnceAction<F, T, A>(func: F, arg: T, address: A) -> (a: Action)
-    ensures a.period() is None, a.key_id() is None
+fn mk_OnceAction<F, T, A>(func: F, arg: T, address: A, via: Via) -> (a: Action)
+    ensures a.period() is None, a.key_id() is None, a.model_rechecks_key() == (via is SendKeyedEvent),
 { unimplemented!() }
 #[verifier::external_body]
-fn mk_KeyedOnceAction<F, T, A>(func: F, arg: T, address: A, key: ActionKey) -> (a: Action)
-    ensures a.period() is None, a.key_id() == Some(key.id())
+fn mk_KeyedOnceAction<F, T, A>(func: F, arg: T, address: A, key: ActionKey, via: Via) -> (a: Action)
+    ensures a.period() is None, a.key_id() == Some(key.id()), a.model_rechecks_key() == (via is SendKeyedEvent),
 { unimplemented!() }
 #[verifier::external_body]
-fn mk_PeriodicAction<F, T, A>(func: F, arg: T, address: A, period: Duration) -> (a: Action)
-    ensures a.period() == Some(dur_ns(period)), a.key_id() is None
+fn mk_PeriodicAction<F, T, A>(func: F, arg: T, address: A, period: Duration, via: Via) -> (a: Action)
+    ensures a.period() == Some(dur_ns(period)), a.key_id() is None, a.model_rechecks_key() == (via is SendKeyedEvent),
 { unimplemented!() }
 #[verifier::external_body]
-fn mk_KeyedPeriodicAction<F, T, A>(func: F, arg: T, address: A, period: Duration, key: ActionKey) -> (a: Action)
-    ensures a.period() == Some(dur_ns(period)), a.key_id() == Some(key.id())
+fn mk_KeyedPeriodicAction<F, T, A>(func: F, arg: T, address: A, period: Duration, key: ActionKey, via: Via) -> (a: Action)
+    ensures a.period() == Some(dur_ns(period)), a.key_id() == Some(key.id()), a.model_rechecks_key() == (via is SendKeyedEvent),
 { unimplemented!() }
 
 //@item src=nexosim/src/simulation/scheduler.rs kind=enum name=SchedulingError
@@ -232,7 +237,7 @@ impl GlobalScheduler {
             final(self).time.val() >= old(self).time.val(),
         //@]
     {
-        let action = mk_OnceAction(func, arg, address);
+        let action = mk_OnceAction(func, arg, address, Via::ProcessEvent);
 
         // The scheduler queue must always be locked when reading the time (see
         // `schedule_from`).
@@ -278,7 +283,7 @@ impl GlobalScheduler {
         //@]
     {
         let event_key = ActionKey::new();
-        let action = mk_KeyedOnceAction(func, arg, address, event_key.clone());
+        let action = mk_KeyedOnceAction(func, arg, address, event_key.clone(), Via::SendKeyedEvent);
 
         // The scheduler queue must always be locked when reading the time (see
         // `schedule_from`).
@@ -327,7 +332,7 @@ impl GlobalScheduler {
         if period.is_zero() {
             return Err(SchedulingError::NullRepetitionPeriod);
         }
-        let action = mk_PeriodicAction(func, arg, address, period);
+        let action = mk_PeriodicAction(func, arg, address, period, Via::ProcessEvent);
 
         // The scheduler queue must always be locked when reading the time (see
         // `schedule_from`).
@@ -377,7 +382,7 @@ impl GlobalScheduler {
             return Err(SchedulingError::NullRepetitionPeriod);
         }
         let event_key = ActionKey::new();
-        let action = mk_KeyedPeriodicAction(func, arg, address, period, event_key.clone());
+        let action = mk_KeyedPeriodicAction(func, arg, address, period, event_key.clone(), Via::SendKeyedEvent);
 
         // The scheduler queue must always be locked when reading the time (see
         // `schedule_from`).
